@@ -1,6 +1,6 @@
 use poulpy_hal::{
     api::{ModuleLogN, ScratchAvailable},
-    layouts::{Backend, GaloisElement, Module, Scratch},
+    layouts::{Backend, GaloisElement, Module, Scratch, ZnxZero},
 };
 
 pub use crate::api::GLWEPackerOps;
@@ -148,9 +148,14 @@ where
 {
     assert!(packer.counter as u32 == packer.accumulators[0].data.n());
 
-    let out: &GLWE<Vec<u8>> = &packer.accumulators[module.log_n() - packer.log_batch - 1].data;
+    let acc: &Accumulator = &packer.accumulators[module.log_n() - packer.log_batch - 1];
+    let out: &GLWE<Vec<u8>> = &acc.data;
 
-    if out.base2k() == res.base2k() {
+    if !acc.value {
+        // Every input of this round was absent: the accumulator still holds whatever an earlier
+        // round left there, the packing of nothing is zero.
+        res.to_mut().data_mut().zero();
+    } else if out.base2k() == res.base2k() {
         module.glwe_copy(res, out)
     } else {
         module.glwe_normalize(res, out, scratch);
